@@ -51,8 +51,9 @@ class GraphBasedModelConstructor:
     extended_transcript_ids = set()
     # (strand, intron chain) of the novel spliced models already reported on this chromosome by the constructors of other
     # (sub-)regions: reads of one novel isoform that bridge a region cut are distributed over two constructors, each of
-    # which would report the chain (cleared per chromosome task, like detected_known_isoforms)
-    reported_novel_chains = set()
+    # which would report the chain (cleared per chromosome task, like detected_known_isoforms); the value is the id of the
+    # model reported first: the reads that support the chain in a later constructor are reads of that model
+    reported_novel_chains = {}
 
     def __init__(self, gene_info, chr_record, params, transcript_counter, id_distributor):
         self.gene_info = gene_info
@@ -80,6 +81,7 @@ class GraphBasedModelConstructor:
         self.internal_counter = defaultdict(int)
         self.read_assignment_counts = defaultdict(int)
         self.transcript2transcript = []
+        self.repeated_chain_models = []
 
     def get_transcript_id(self):
         return self.id_distributor.increment()
@@ -140,6 +142,9 @@ class GraphBasedModelConstructor:
         # reassign reads
         self.assign_reads_to_models(read_assignment_storage)
         self.forward_counts()
+        # the local copies of models reported by earlier constructors have passed their reads on and are not printed again
+        self.transcript_model_storage = [model for model in self.transcript_model_storage
+                                         if not any(model is local_copy for local_copy in self.repeated_chain_models)]
 
         transcript_joiner = TranscriptToGeneJoiner(self.transcript_model_storage, self.gene_info)
         self.transcript_model_storage = transcript_joiner.join_transcripts()
@@ -290,15 +295,30 @@ class GraphBasedModelConstructor:
         del self.internal_counter[transcript_id]
 
     def drop_novel_chains_reported_elsewhere(self):
+        # a novel chain already reported by the constructor of another (sub-)region is not reported again, but the reads
+        # that support it here are reads of that very isoform: the local copy takes the id of the model reported first, so
+        # its reads are listed and counted under that id (the constructors of a chromosome share the counter), and leaves
+        # the storage once the counts are forwarded
+        self.repeated_chain_models = []
+        repeated_chains = set()
         kept = []
-        own_chains = set()
+        own_chains = {}
         for model in self.transcript_model_storage:
             if model.transcript_type != TranscriptModelType.known and len(model.exon_blocks) > 1:
                 chain = (model.strand, tuple(junctions_from_blocks(model.exon_blocks)))
                 if chain in GraphBasedModelConstructor.reported_novel_chains:
-                    self.delete_from_storage(model.transcript_id)
-                    continue
-                own_chains.add(chain)
+                    if chain in repeated_chains:
+                        # a second local copy of the chain: its reads are assigned again below
+                        self.delete_from_storage(model.transcript_id)
+                        continue
+                    repeated_chains.add(chain)
+                    first_id = GraphBasedModelConstructor.reported_novel_chains[chain]
+                    self.transcript_read_ids[first_id] = self.transcript_read_ids.pop(model.transcript_id)
+                    self.internal_counter[first_id] = self.internal_counter.pop(model.transcript_id)
+                    model.transcript_id = first_id
+                    self.repeated_chain_models.append(model)
+                else:
+                    own_chains.setdefault(chain, model.transcript_id)
             kept.append(model)
         self.transcript_model_storage = kept
         # compared with LATER constructors only: what a single constructor reports is unchanged
